@@ -54,3 +54,22 @@ Proof.
   - intros -> ->. reflexivity.
   - intros -> -> -> ->. reflexivity.
 Qed.
+
+(** * json_convertor_default *)
+Lemma jconv_eqb_eq : forall a b, jconv_eqb a b = true -> a = b.
+Proof. intros [x|x] [y|y] H; cbn in H; try discriminate H; apply String.eqb_eq in H; subst; reflexivity. Qed.
+Lemma entry_eqb_eq : forall a b, entry_eqb a b = true -> a = b.
+Proof.
+  intros [k j] [k' j'] H. unfold entry_eqb in H. cbn [fst snd] in H. apply andb_true_iff in H. destruct H as [H1 H2].
+  apply String.eqb_eq in H1. apply jconv_eqb_eq in H2. subst. reflexivity.
+Qed.
+Lemma same_entries_b_spec : forall a b, same_entries_b a b = true -> forall e, In e a <-> In e b.
+Proof.
+  intros a b H e. unfold same_entries_b in H. apply andb_true_iff in H. destruct H as [H1 H2].
+  rewrite forallb_forall in H1, H2. split; intro Hin.
+  - specialize (H1 e Hin). apply existsb_exists in H1. destruct H1 as [y [Hy E]]. apply entry_eqb_eq in E. subst. exact Hy.
+  - specialize (H2 e Hin). apply existsb_exists in H2. destruct H2 as [y [Hy E]]. apply entry_eqb_eq in E. subst. exact Hy.
+Qed.
+(* the hand table gives the converters Codec.to_json assumes *)
+Theorem default_convertor_is_table_lookup : forall c, convertor (convertor_mapping []) c = default_convertor c.
+Proof. intros []; reflexivity. Qed.
